@@ -36,16 +36,20 @@ type hOp struct {
 type hRootReq struct {
 	Name string `json:"n"`
 	Text string `json:"t"`
-	Adds []int  `json:"a"` // pool indices, in AddType order (the name is the pool entry's name)
-	Doc  string `json:"d"` // document of the v calls
+	Adds []int  `json:"a"`           // pool indices, in AddType order (the name is the pool entry's name)
+	Doc  string `json:"d"`           // document of the v calls
+	Opt  bool   `json:"o,omitempty"` // this root object is created with jschema.KeysAreOptionalByDefault()
 }
 
 type hReq struct {
-	ID    int         `json:"id"`
-	Pool  [][2]string `json:"pool"` // name, text
-	Rules [][2]string `json:"rules"`
-	Roots []hRootReq  `json:"roots"`
-	Ops   []hOp       `json:"ops"`
+	ID   int         `json:"id"`
+	Pool [][2]string `json:"pool"` // name, text
+	// PoolOpts[i]: pool object i is created with jschema.KeysAreOptionalByDefault() (the option belongs to the object,
+	// whichever roots it is added to)
+	PoolOpts []bool      `json:"popts,omitempty"`
+	Rules    [][2]string `json:"rules"`
+	Roots    []hRootReq  `json:"roots"`
+	Ops      []hOp       `json:"ops"`
 }
 
 type hCall struct {
@@ -94,8 +98,11 @@ func hcall(f func() string) string {
 	}
 }
 
-func newObject(name, text string, rules [][2]string) (*jschema.Schema, string) {
+func newObject(name, text string, opt bool, rules [][2]string) (*jschema.Schema, string) {
 	s := jschema.New(name, text)
+	if opt {
+		s = jschema.New(name, text, jschema.KeysAreOptionalByDefault())
+	}
 	for _, r := range rules {
 		if err := s.AddRule(r[0], enum.New(r[0], r[1])); err != nil {
 			return s, "rule " + r[0] + ": " + tg.ErrString(err)
@@ -123,11 +130,12 @@ func hExample(s *jschema.Schema) (ex, exErr, val string) {
 
 func hServe(req *hReq) hRes {
 	res := hRes{ID: req.ID}
+	popt := func(pi int) bool { return pi < len(req.PoolOpts) && req.PoolOpts[pi] }
 	build := func(rr hRootReq, object func(int) (*jschema.Schema, string)) (*jschema.Schema, string) {
 		var s *jschema.Schema
 		e := hcall(func() string {
 			var bad string
-			s, bad = newObject(rr.Name, rr.Text, req.Rules)
+			s, bad = newObject(rr.Name, rr.Text, rr.Opt, req.Rules)
 			for _, pi := range rr.Adds {
 				o, e := object(pi)
 				if e != "" && bad == "" {
@@ -147,7 +155,9 @@ func hServe(req *hReq) hRes {
 	// fresh phase
 	for _, rr := range req.Roots {
 		var f hFresh
-		s, e := build(rr, func(pi int) (*jschema.Schema, string) { return newObject(req.Pool[pi][0], req.Pool[pi][1], req.Rules) })
+		s, e := build(rr, func(pi int) (*jschema.Schema, string) {
+			return newObject(req.Pool[pi][0], req.Pool[pi][1], popt(pi), req.Rules)
+		})
 		if e != "OK" {
 			f.AddErr = e
 		}
@@ -179,7 +189,7 @@ func hServe(req *hReq) hRes {
 					return objs[pi], ""
 				}
 				var e string
-				objs[pi], e = newObject(req.Pool[pi][0], req.Pool[pi][1], req.Rules)
+				objs[pi], e = newObject(req.Pool[pi][0], req.Pool[pi][1], popt(pi), req.Rules)
 				return objs[pi], e
 			})
 		case s == nil:
